@@ -6,7 +6,8 @@ Model of `types/part_set.go` as it is today (defects included): `NewPartSetFromD
 Partiality is explicit (`Except Panic`): `AddPart` indexes `ps.parts[part.Index]` after checking
 `part.Index < 0 || part.Index >= ps.total` (the lower bound was added by the repair commit
 "fix: reject block parts with a negative index"; before it `Index = -1` panicked),
-`NewPartSetFromHeader` calls `make([]*Part, header.Total)` on an unchecked `Total`,
+`NewPartSetFromHeader` calls `make([]*Part, header.Total)` without a check of its own (its callers that take
+the header from a peer bound `Total` first: fix 1b2bd5e, `Props.C12.parts_total_guards_vetted`),
 `NewPartSetFromData` dereferences a nil root for empty data and divides by `partSize`, `GetReader`
 panics on an incomplete set and indexes `parts[0]`.
 -/
